@@ -8,6 +8,7 @@ eight real methods behave as these two is what the correspondence runs establish
 executed with randomly assigned variants of both classes, borrowed and owned, sync and async).
 -/
 import Lockable.Proofs.ApiLemmas
+import Lockable.Proofs.Refine
 import Lockable.Props.C01
 import Lockable.Props.C02
 import Lockable.Props.C04
@@ -159,6 +160,31 @@ for the handle of a sequential caller; counting/listing: `C04_keys_exact`, `C04_
 theorem C05_guard_value (s : State) (h : Nat) (hd : Handle) (m : Entry) :
     s.hs h = some hd → hd.st = .holding → s.entryOf hd = some m →
     (gop s h .value).2 = .optVal (absVal s hd.key) ∧ (gop s h .value).1 = s := C02_view s h hd m
+
+/-- **Refinement (Theorem B)**: for every finite single-threaded history of acquisitions (waiting or trying, any key),
+polls and cancellations of pending acquisitions, guard methods with arbitrary values and guard drops in any
+order — from the empty container of any kind — the container's replies are exactly those of the abstract
+specification `specExec`: a plain map `vals`, at most one guard per key (`held`), FIFO waiters per key
+(`waiting`); a try succeeds iff the key is neither held nor awaited, a pending acquisition completes iff it
+is first in line and the key is not held. (`WF`: every call is applied to a handle in the right state,
+which Rust's ownership guarantees for a client.) -/
+theorem C05_refines (kind : Kind) (cs : List SCall) :
+    WF (State.init kind) cs → runApi (State.init kind) cs = runSpec Spec.init cs :=
+  refines_run cs (State.init kind) Spec.init (inv_init kind) (rel_init kind)
+
+/-- one call, with the resulting states related again (the induction step of `C05_refines`) -/
+theorem C05_refines_step (s : State) (sp : Spec) (hi : Inv s) (hr : Rel s sp) (c : SCall) (hpre : Pre s c) :
+    resOut (Api.exec ⟨s, []⟩ c.toCall).2.res = (specExec sp c).2 ∧
+    Rel (Api.exec ⟨s, []⟩ c.toCall).1.s (specExec sp c).1 ∧ Inv (Api.exec ⟨s, []⟩ c.toCall).1.s :=
+  refines_step s sp hi hr c hpre
+
+/-- non-vacuity of `C05_refines`: a history with contention, a queue, a cancellation and value changes -/
+example :
+    let cs : List SCall := [.lockWait 1 7, .op 1 7 (.insert 5), .lockWait 2 7, .lockTry 3 7, .lockWait 4 7, .cancel 2 7,
+                            .drop 1 7, .lockTry 5 7, .poll 4 7, .op 4 7 .remove, .drop 4 7, .lockTry 6 7]
+    runSpec Spec.init cs = [.guard, .val (.optVal none), .pending, .none, .pending, .ok, .ok, .none, .guard,
+                            .val (.optVal (some 5)), .ok, .guard] ∧
+    runApi (State.init .lru) cs = runSpec Spec.init cs := by decide
 
 /-- non-vacuity: try on a key that is awaited (handed to a pending waiter but not held by a guard) fails -/
 example :
